@@ -1,5 +1,6 @@
 import GmQuic.Lemmas.RcvdScan
 import GmQuic.Lemmas.AckRoom
+import GmQuic.Lemmas.AckTight
 /-!
 C10, receiving direction: what a generated ACK frame says is true of what was received.
 `run ops` ranges over ALL histories of `on_rcvd_pn` (any order, duplicates, gaps, old numbers), `gen_ack_frame_util`
@@ -100,9 +101,8 @@ theorem ack_only_received_needs_largest_rcvd :
   have := hc 7 (by decide)
   revert this; decide
 
-/-- **ack_complete_when_room** (generous room: 47 bytes + 21 per tracked record up to `largest`): every tracked received
-number `≤ largest` is enumerated by the frame.  (The tight bound "capacity > size of the complete frame" is OPEN,
-see docs/C10.md; with capacity = that size exactly the code drops the last range, `ack_last_range_needs_spare_byte`.) -/
+/-- **ack_complete_when_room** (explicit generous room: 47 bytes + 21 per tracked record up to `largest`): every tracked
+received number `≤ largest` is enumerated by the frame.  The tight bound is `ack_complete_when_room_tight` below. -/
 theorem ack_complete_when_room (ops : List Op) (pn largest delay cap : Nat) (f : AckFrame)
     (hl : (run ops).has largest = true)
     (hroom : 47 + 21 * (largest + 1 - (run ops).offset) ≤ cap)
@@ -139,6 +139,50 @@ theorem ack_complete_when_room (ops : List Op) (pn largest delay cap : Nat) (f :
 
 example : (run [.rcv 0 true 1, .rcv 2 true 1]).has 2 = true ∧ 47 + 21 * (2 + 1 - (run [.rcv 0 true 1, .rcv 2 true 1]).offset) ≤ 110 ∧
     (genAck (run [.rcv 0 true 1, .rcv 2 true 1]) 1 2 0 110).2 = .ok ⟨2, 0, 0, [(0, 0)]⟩ := by decide
+
+/-- **ack_complete_when_room** (tight): `fullSize` (defined from the journal state alone, independent of the capacity) is
+the encoded size of the complete frame, and every capacity strictly above it yields that complete frame: every tracked
+received number `≤ largest` is enumerated and `encoding_size() = fullSize`.  At capacity `= fullSize` the code leaves the
+last range out (`ack_last_range_needs_spare_byte`, known finding). -/
+theorem ack_complete_when_room_tight (ops : List Op) (pn largest delay cap : Nat) (f : AckFrame)
+    (hl : (run ops).has largest = true)
+    (hroom : fullSize largest delay (bsOf (run ops) largest) < cap)
+    (h : (genAck (run ops) pn largest delay cap).2 = .ok f) :
+    (∃ out, f.iter = some out ∧ ∀ p, p ≤ largest → (run ops).has p = true → covers out p = true) ∧
+    f.size = fullSize largest delay (bsOf (run ops) largest) := by
+  generalize run ops = s at *
+  obtain ⟨v, hv, -⟩ := genAck_ok _ _ _ _ _ _ h
+  have hL : f.largest = largest := by
+    unfold genFrame at hv; simp only at hv; split at hv
+    · simp at hv
+    · simp only [Prod.mk.injEq, GenOut.ok.injEq] at hv; obtain ⟨hv, -⟩ := hv; subst hv; rfl
+  obtain ⟨hge, hlt⟩ := has_lt_largest s largest hl
+  have h0 : 1 ≤ leadTrue (bsOf s largest) := by
+    apply leadTrue_pos
+    rw [covAt_bsOf s largest 0 hge hlt]; simp [hl]
+  have hblen : (bsOf s largest).length = largest + 1 - s.offset := by rw [bsOf_length, below_eq s largest hge hlt]
+  obtain ⟨⟨t, ht, hf⟩, hsz⟩ := genFrame_complete_tight _ _ _ _ _ _ hv h0 hroom
+  refine ⟨?_, hsz⟩
+  have hlen : (cover f.first f.ranges).length ≤ f.largest + 1 := by
+    have := congrArg List.length ht
+    rw [hblen, List.length_append] at this
+    omega
+  obtain ⟨out, ho, hc⟩ := (iter_spec f).2 hlen
+  refine ⟨out, ho, ?_⟩
+  intro p hp hhp
+  rw [hc p, hL]
+  simp only [Bool.and_eq_true, decide_eq_true_eq]
+  refine ⟨hp, ?_⟩
+  obtain ⟨hpo, -⟩ := has_lt_largest s p hhp
+  apply covAt_append_false _ t _ hf
+  rw [← ht, covAt_bsOf s largest _ hge hlt]
+  have e : largest - (largest - p) = p := by omega
+  simp only [e, hhp, Bool.and_true, decide_eq_true_eq]
+  omega
+
+/-- non-vacuity: received {0,2}: the complete frame has 7 bytes; capacity 8 gives it, capacity 7 does not -/
+example : fullSize 2 0 (bsOf (run [.rcv 0 true 1, .rcv 2 true 1]) 2) = 7 ∧
+    (genAck (run [.rcv 0 true 1, .rcv 2 true 1]) 1 2 0 8).2 = .ok ⟨2, 0, 0, [(0, 0)]⟩ := by decide
 
 /-- The last range is pushed only if `capacity > size` (strictly): with capacity exactly the size of the complete
 frame the code leaves the last range out although it would fit (conservative off-by-one, replayed in `C10r` case 1). -/
